@@ -134,6 +134,8 @@ func extraForms() []struct {
 		{"empty string", rh.StringV("")}, {"short non-ASCII string", rh.StringV("héé")}, {"short 4-byte string", rh.StringV("a😀b😀")}, {"40 CJK chars", rh.StringV(strings.Repeat("中", 40))}, {"1000 2-byte chars", rh.StringV(strings.Repeat("é", 1000))}, {"string of 40 chars", rh.StringV(strings.Repeat("m", 40))}, {"string of 1100 chars", rh.StringV(strings.Repeat("l", 1100))}, {"string in three chunks", rh.StringV(strings.Repeat("é", 70000))},
 		{"empty binary", rh.BinaryV([]byte{})}, {"binary of 20 octets", rh.BinaryV(make([]byte, 20))}, {"binary of 1100 octets", rh.BinaryV(make([]byte, 1100))}, {"binary in chunks", rh.BinaryV(make([]byte, 70000))},
 		{"empty list", &rh.Value{K: rh.List}}, {"empty map", &rh.Value{K: rh.Map}},
+		{"typed list of strings (its type name enters the type table)", &rh.Value{K: rh.List, Typed: true, Type: "[string", Elems: []*rh.Value{rh.StringV("e1")}}},
+		{"typed map with a string key (its type name enters the type table)", &rh.Value{K: rh.Map, Typed: true, Type: "com.example.M2", Elems: []*rh.Value{rh.StringV("k"), rh.StringV("v")}}},
 		{"typed map", &rh.Value{K: rh.Map, Typed: true, Type: "com.example.M", Elems: []*rh.Value{rh.IntV(1), rh.StringV("v")}}},
 		{"list of 9 elements", &rh.Value{K: rh.List, Elems: []*rh.Value{rh.IntV(1), rh.IntV(2), rh.IntV(3), rh.IntV(4), rh.IntV(5), rh.IntV(6), rh.IntV(7), rh.IntV(8), rh.IntV(9)}}},
 		// three kinds of skipping nested in each other: a registered-class object whose own definition has an
@@ -268,39 +270,47 @@ func init() {
 					for _, rev := range []bool{false, true} {
 						for pos := 0; pos <= n; pos++ {
 							for _, ev := range extraForms() {
-								if !c.Begin() {
-									continue
-								}
-								c.NontrivialN(1)
-								c.Res.States++
-								c.Res.Transitions++
-								obj := zoo.NewDenoter(nm).Denote(tv)
-								cls := &rh.Class{Name: obj.Class.Name}
-								var vals []*rh.Value
-								for i := 0; i < n; i++ {
-									fi := i
-									if rev {
-										fi = n - 1 - i
+								for _, backref := range []bool{false, true} {
+									if !c.Begin() {
+										continue
 									}
-									if i == pos {
+									c.NontrivialN(1)
+									c.Res.States++
+									c.Res.Transitions++
+									obj := zoo.NewDenoter(nm).Denote(tv)
+									cls := &rh.Class{Name: obj.Class.Name}
+									var vals []*rh.Value
+									for i := 0; i < n; i++ {
+										fi := i
+										if rev {
+											fi = n - 1 - i
+										}
+										if i == pos {
+											cls.Fields = append(cls.Fields, "zzUnknown")
+											vals = append(vals, ev.v)
+										}
+										cls.Fields = append(cls.Fields, obj.Class.Fields[fi])
+										vals = append(vals, obj.Elems[fi])
+									}
+									if pos == n {
 										cls.Fields = append(cls.Fields, "zzUnknown")
 										vals = append(vals, ev.v)
 									}
-									cls.Fields = append(cls.Fields, obj.Class.Fields[fi])
-									vals = append(vals, obj.Elems[fi])
+									var pick rh.Choices
+									if backref {
+										// later types are named by back-reference wherever the grammar allows it (also to a
+										// type name first spelled out inside the skipped value)
+										pick = policyPick{"type back-references", map[string]int{"type-backref": 1}}
+									}
+									e := rh.NewEncoder(pick)
+									e.Top(&rh.Value{K: rh.Object, Class: cls, Elems: vals})
+									desc := fmt.Sprintf("%s (reversed definition order=%v, type back-references=%v) with an unknown field holding %s at wire position %d", tname(tv), rev, backref, ev.name, pos)
+									if _, err := rh.ParseOne(e.Out); err != nil {
+										c.Report(&core.Violation{Stage: "selfcheck", Kind: "harness", Shape: "R1", Message: err.Error(), Case: desc})
+										continue
+									}
+									c.Outcome(decodeAgainst(c, e.Out, tv, tm, nm, desc, "defs extra-form:"+ev.name, nil))
 								}
-								if pos == n {
-									cls.Fields = append(cls.Fields, "zzUnknown")
-									vals = append(vals, ev.v)
-								}
-								e := rh.NewEncoder(nil)
-								e.Top(&rh.Value{K: rh.Object, Class: cls, Elems: vals})
-								desc := fmt.Sprintf("%s (reversed definition order=%v) with an unknown field holding %s at wire position %d", tname(tv), rev, ev.name, pos)
-								if _, err := rh.ParseOne(e.Out); err != nil {
-									c.Report(&core.Violation{Stage: "selfcheck", Kind: "harness", Shape: "R1", Message: err.Error(), Case: desc})
-									continue
-								}
-								c.Outcome(decodeAgainst(c, e.Out, tv, tm, nm, desc, "defs extra-form:"+ev.name, nil))
 							}
 						}
 					}
